@@ -1529,6 +1529,9 @@ func sendPex(peer *Peer) {
 		err := write(peer,
 			protocol.ExtendedPex{uint8(peer.pexExt), tosend, todel})
 		if err != nil {
+			// nothing was sent
+			peer.pexState.sent = peer.pexState.sent[:len(
+				peer.pexState.sent)-len(tosend)]
 			peer.pexState.pending =
 				append(tosend, peer.pexState.pending...)
 			peer.pexState.pendingDel =
